@@ -24,10 +24,19 @@ def colours():
     return GREYS + HUES + NEAR_GREYS
 
 
+EDGE = [(38, 255, 0), (0, 255, 215), (226, 255, 0), (255, 40, 0), (0, 60, 255), (255, 0, 200), (46, 255, 0), (0, 255, 90)]
+
+
 def pairs():
     for b in BACKGROUNDS:
         for t in colours():
             yield t, b
+    # vivid colours on the sRGB gamut surface against a background of similar hue and nearby luminance
+    # (the search has almost no room there: candidates clip, contrasts tie)
+    for t in EDGE:
+        for f in (0.95, 0.85, 0.74):
+            yield t, tuple(int(round(c * f)) for c in t)
+        yield t, tuple(min(255, c + 30) for c in t)
 
 
 def main():
